@@ -73,17 +73,17 @@ def generate(rng, tier, shard, nshards):
         if rng.random() < 0.6:
             if cls == 'TextPixelRegion':
                 # property names and the aliases matplotlib accepts for them
-                kw = rng.choice([{'color': 'cyan'}, {'fontsize': 17}, {'rotation': 45.0}, {'alpha': 0.25}, {'ha': 'left'}, {'va': 'top'},
+                kw = rng.choice([{'color': 'green'}, {'color': 'cyan'}, {'fontsize': 17}, {'rotation': 45.0}, {'alpha': 0.25}, {'ha': 'left'}, {'va': 'top'},
                                  {'horizontalalignment': 'right'}, {'verticalalignment': 'bottom'}, {'size': 19}, {'weight': 'light'},
                                  {'fontweight': 'light'}, {'style': 'italic'}, {'fontstyle': 'oblique'}, {'c': 'cyan'}, {'family': 'serif'},
                                  {'fontfamily': 'monospace'}, {'ha': 'right', 'va': 'bottom', 'size': 8}])
             elif cls == 'PointPixelRegion':
-                kw = rng.choice([{'markersize': 13}, {'markeredgecolor': 'cyan'}, {'marker': 's'}, {'alpha': 0.25}, {'ms': 15}, {'mec': 'cyan'},
+                kw = rng.choice([{'markersize': 13}, {'markeredgecolor': 'green'}, {'markeredgecolor': 'cyan'}, {'marker': 's'}, {'alpha': 0.25}, {'ms': 15}, {'mec': 'cyan'},
                                  {'mew': 2.5}, {'markeredgewidth': 3.5}, {'fillstyle': 'full', 'markerfacecolor': 'yellow'}, {'fillstyle': 'full', 'markerfacecolor': 'yellow'},
                                  {'fillstyle': 'left', 'markerfacecolor': 'yellow', 'markeredgecolor': 'cyan'}, {'fillstyle': 'full', 'mfc': 'yellow'},
                                  {'markerfacecolor': 'yellow'}, {'fillstyle': 'full', 'mfc': 'yellow', 'mec': 'cyan'}, {'fillstyle': 'full'}])
             else:
-                kw = rng.choice([{'edgecolor': 'cyan'}, {'linewidth': 7.5}, {'fill': True, 'facecolor': 'yellow'}, {'alpha': 0.25}, {'linestyle': '-.'},
+                kw = rng.choice([{'edgecolor': 'green'}, {'ec': 'green'}, {'fill': True, 'facecolor': 'green'}, {'edgecolor': 'cyan'}, {'linewidth': 7.5}, {'fill': True, 'facecolor': 'yellow'}, {'alpha': 0.25}, {'linestyle': '-.'},
                                  {'ec': 'cyan'}, {'lw': 6.5}, {'ls': '-.'}, {'fill': True, 'fc': 'yellow'}])
         yield {'lane': cls, 'region': reg, 'origin': rng.choice([[0, 0], [0, 0], [rng.uniform(-50, 50), rng.uniform(-50, 50)], [10, -3], [0.5, 0.5], [-0.25, 7.75], [100, 64], [7, 3], [100, 64]]), 'kw': kw,
                'rs': rng.randrange(2 ** 31)}
@@ -153,6 +153,21 @@ def run_case(case, obs):
             origin = np.array([ix, iy], dtype=float)
         if okind in (1, 2, 3, 4, 5):
             obs.count('origin-kind:' + type(origin).__name__ + ':' + str(getattr(origin, 'dtype', type(origin[0]).__name__)))
+    model = reg
+    if cls == 'RegularPolygonPixelRegion' and case['rs'] % 4 == 0:
+        # a regular polygon whose parameters were reassigned after construction still *is* (contains, box, mask) the polygon of
+        # its stored vertices; the patch has to depict that same point set
+        how = case['rs'] // 4 % 3
+        if how == 0:
+            reg.radius = reg.radius * 1.7
+        elif how == 1:
+            reg.center = regions.PixCoord(reg.center.x + 0.6 * float(reg.radius), reg.center.y - 0.3 * float(reg.radius))
+        else:
+            import astropy.units as u
+            reg.angle = reg.angle + 25 * u.deg
+        obs.count('regular-polygon-edited-before-as_artist')
+        model = regions.PolygonPixelRegion(regions.PixCoord(np.array(reg.vertices.x, dtype=float), np.array(reg.vertices.y, dtype=float)))
+        fp0 = S.fingerprint(reg)
     art = reg.as_artist(origin=origin, **kw)
     obs.check(S.fingerprint(reg) == fp0, 'as_artist-mutates-region', f'{cls}.as_artist changed the region', 'region-unchanged')
     if cls in PATCHY:
@@ -164,10 +179,10 @@ def run_case(case, obs):
         import matplotlib.transforms as mtr
         # query points from the C01 generator (interior, exterior, near the boundary)
         q = {'kind': 'mixed', 'form': '1d', 'shape': None, 'dtype': 'float64', 'n': 200, 'rs': case['rs']}
-        pc = c01.make_queries(reg, q)
+        pc = c01.make_queries(model, q)
         px, py = np.asarray(pc.x, dtype=float), np.asarray(pc.y, dtype=float)
-        m, band = geom.shape_margin(reg, px, py)
-        cx, cy, L = c01.region_scale(reg)
+        m, band = geom.shape_margin(model, px, py)
+        cx, cy, L = c01.region_scale(model)
         decided = np.abs(m) > np.asarray(band) + 2e-3 * L
         sc = 1e5 / L
         cxo, cyo = cx - ox, cy - oy
